@@ -112,7 +112,7 @@ theorem absOf_replicate (n : Nat) (cells : Array (Cell K V)) :
   funext i
   unfold absOf Spec.Map.empty
   split
-  · rw [Array.getElem?_replicate]; split <;> rfl
+  · rw [Array.getElem?_replicate]; by_cases h : i.toNat < n <;> simp [h]
   · rfl
 
 /-- all ids in use are below `cells.size`, so the next allocation number is fresh -/
@@ -130,6 +130,12 @@ theorem Reg.insert {cap : Nat} {S : List Nat} {nodes : Array (Option Nat)} {cell
     absOf (nodes.setIfInBounds i (some cells.size)) (cells.push { index := i, key := key, val := val })
       = (absOf nodes cells).set (i : Int) (some (key, val)) := by
   have ns := r.nsize
+  have hin : i < nodes.size := by omega
+  have hpush : (cells.push { index := i, key := key, val := val })[cells.size]? =
+      some { index := i, key := key, val := val } := by
+    rw [Array.getElem?_push, if_pos rfl]
+  have hset : (nodes.setIfInBounds i (some cells.size))[i]? = some (some cells.size) := by
+    rw [Array.getElem?_setIfInBounds, if_pos rfl, if_pos hin]
   have hlt : ∀ id, id ∈ S → id < cells.size := by
     intro id h
     obtain ⟨c, hc, _⟩ := r.reg _ h
@@ -140,7 +146,7 @@ theorem Reg.insert {cap : Nat} {S : List Nat} {nodes : Array (Option Nat)} {cell
   · refine ⟨by simp [ns], List.nodup_cons.mpr ⟨r.fresh, r.nodup⟩, ?_, ?_⟩
     · intro id hid
       rcases List.mem_cons.mp hid with rfl | hid
-      · exact ⟨_, by simp, by simp [Array.getElem?_setIfInBounds]; omega⟩
+      · exact ⟨_, hpush, hset⟩
       · obtain ⟨c, hc, hn⟩ := r.reg _ hid
         have := hlt _ hid
         refine ⟨c, by rw [Array.getElem?_push]; rw [if_neg (by omega)]; exact hc, ?_⟩
@@ -152,10 +158,9 @@ theorem Reg.insert {cap : Nat} {S : List Nat} {nodes : Array (Option Nat)} {cell
       by_cases hij : i = j
       · subst hij
         rw [if_pos rfl] at hj
-        split at hj
-        · cases hj
-          exact ⟨List.mem_cons_self, _, by simp, rfl⟩
-        · cases hj
+        rw [if_pos hin] at hj
+        cases hj
+        exact ⟨List.mem_cons_self, _, hpush, rfl⟩
       · rw [if_neg hij] at hj
         obtain ⟨hmem, c, hc, hci⟩ := r.back _ _ hj
         have := hlt _ hmem
@@ -165,7 +170,7 @@ theorem Reg.insert {cap : Nat} {S : List Nat} {nodes : Array (Option Nat)} {cell
     by_cases hji : j = (i : Int)
     · subst hji
       rw [if_pos rfl]
-      exact absOf_held (i := i) (id := cells.size) (by simp [Array.getElem?_setIfInBounds]; omega) (by simp)
+      exact absOf_held hset hpush
     · rw [if_neg hji]
       unfold absOf
       simp only [Array.size_setIfInBounds]
@@ -245,7 +250,7 @@ theorem Reg.setKey {cap : Nat} {S : List Nat} {nodes : Array (Option Nat)} {cell
     · intro id' hid'
       rw [Array.getElem?_setIfInBounds]
       by_cases h : id = id'
-      · subst h; exact ⟨_, by simp [hlt], hn⟩
+      · subst h; exact ⟨{ c' with key := key }, by simp [hlt], hn⟩
       · rw [if_neg h]; exact r.reg id' hid'
     · intro i id' hi
       obtain ⟨hmem, d, hd, hdi⟩ := r.back _ _ hi
@@ -254,14 +259,14 @@ theorem Reg.setKey {cap : Nat} {S : List Nat} {nodes : Array (Option Nat)} {cell
       by_cases h : id = id'
       · subst h
         rw [hc] at hd; cases hd
-        exact ⟨_, by simp [hlt], hdi⟩
+        exact ⟨{ c' with key := key }, by simp [hlt], hdi⟩
       · rw [if_neg h]; exact ⟨d, hd, hdi⟩
   · funext j
     unfold Spec.Map.set
     by_cases hji : j = (c'.index : Int)
     · subst hji
       rw [if_pos rfl]
-      exact absOf_held hn (by simp [Array.getElem?_setIfInBounds, hlt])
+      exact absOf_held (c := { c' with key := key }) hn (by simp [hlt])
     · rw [if_neg hji]
       unfold absOf
       split
@@ -308,7 +313,7 @@ theorem anyCell_spec {cap : Nat} {S : List Nat} {nodes : Array (Option Nat)} {ce
           exact ⟨j + 1, by simp; omega, k, v, by rw [← ha]; congr 2; omega, hq⟩
         · rintro ⟨j, hj, k, v, ha, hq⟩
           cases j with
-          | zero => rw [absOf_free (Or.inl h0)] at ha; cases ha
+          | zero => simp only [Nat.add_zero] at ha; rw [absOf_free (Or.inl h0)] at ha; cases ha
           | succ j => exact ⟨j, by simp at hj; omega, k, v, by rw [← ha]; congr 2; omega, hq⟩
       | some id =>
         simp only [anyCell] at hb
@@ -331,10 +336,10 @@ theorem anyCell_spec {cap : Nat} {S : List Nat} {nodes : Array (Option Nat)} {ce
             · rintro ⟨j, hj, k, v, ha, hq⟩
               cases j with
               | zero =>
-                rw [Nat.add_zero, habs] at ha; cases ha
+                simp only [Nat.add_zero] at ha; rw [habs] at ha; cases ha
                 rw [← hpq] at hq; exact absurd hq hp
               | succ j => exact ⟨j, by simp at hj; omega, k, v, by rw [← ha]; congr 2; omega, hq⟩
-  have := key nodes.toList 0 (by intro j hj; simp at hj ⊢; exact (Array.getElem?_eq_getElem hj)) b hb
+  have := key nodes.toList 0 (by intro j hj; simp at hj ⊢) b hb
   rw [this]
   constructor
   · rintro ⟨j, _, k, v, ha, hq⟩
@@ -345,5 +350,33 @@ theorem anyCell_spec {cap : Nat} {S : List Nat} {nodes : Array (Option Nat)} {ce
     unfold Spec.InRange at hr
     refine ⟨i.toNat, by simp; omega, k, v, ?_, hq⟩
     rw [← ha]; congr 1; omega
+
+/-- the scan over `nodes[]` never reads the contents of a node that does not exist -/
+theorem anyCell_total {cap : Nat} {S : List Nat} {nodes : Array (Option Nat)} {cells : Array (Cell K V)}
+    (r : Reg cap S nodes cells) (p : Cell K V → Bool) : ∃ b, anyCell cells p nodes.toList = .ok b := by
+  have key : ∀ (l : List (Option Nat)), (∀ id, some id ∈ l → ∃ c, cells[id]? = some c) →
+      ∃ b, anyCell cells p l = .ok b := by
+    intro l
+    induction l with
+    | nil => intro _; exact ⟨false, rfl⟩
+    | cons x rest ih =>
+      intro hl
+      have hrest := ih (fun id hid => hl id (List.mem_cons_of_mem _ hid))
+      cases x with
+      | none => simpa only [anyCell] using hrest
+      | some id =>
+        obtain ⟨c, hc⟩ := hl id List.mem_cons_self
+        simp only [anyCell, hc]
+        split
+        · exact ⟨true, rfl⟩
+        · exact hrest
+  apply key
+  intro id hid
+  obtain ⟨j, hj, hje⟩ := List.getElem_of_mem hid
+  have hj' : j < nodes.size := by simpa using hj
+  have : nodes[j]? = some (some id) := by
+    rw [Array.getElem?_eq_getElem hj']; simp at hje; rw [hje]
+  obtain ⟨_, c, hc, _⟩ := r.back _ _ this
+  exact ⟨c, hc⟩
 
 end AlgoVerif.C05
